@@ -74,6 +74,92 @@ def ptsFrom (pre : Bool) (s : Store) (n : Nat) : List Mutation → List Pt
 def crashPts (pre : Bool) (hist : List Mutation) : List Pt :=
   ⟨{}, 0, 0⟩ :: ptsFrom pre Store.init 0 hist
 
+/-! ## Concurrent callers
+
+`mutationHandler` (the body of `Put`, `PrefixAppend`, `Import`, …) builds the request and hands it to the
+writer goroutine over the UNBUFFERED channel `d.queue`, then blocks on `<-req.err`. Nothing about the
+request is decided on the caller's side: the rejection test `checkMutation`, `appendLog`,
+`handleMutation` and the acknowledgement all run inside ONE iteration of the single writer loop, between
+two receives. Whatever number of goroutines call the store at the same time (also before `Start` runs:
+they all wait in the channel send), a run is therefore determined by the order in which the writer
+receives the requests: a history of requests tagged with the caller that issued them. Each caller has at
+most one outstanding request, so its own requests appear in program order. -/
+
+/-- a request: (caller, mutation) -/
+abbrev Req := Nat × Mutation
+
+/-- the order in which the writer received the requests, as a plain history -/
+def muts (h : List Req) : List Mutation := h.map (·.2)
+
+/-- the program of caller `t` (its requests in the order it issued them) inside a tagged history -/
+def proj (t : Nat) (h : List Req) : List Mutation := (h.filter (fun r => r.1 = t)).map (·.2)
+
+/-- crash points of a run with concurrent callers in which the writer received the requests in the order `h` -/
+def crashPtsC (h : List Req) : List Pt := crashPts true (muts h)
+
+/-- A writer iteration whose rejection test looks at the memory `seen` instead of the memory the writer
+has at that moment. `seen = s.mem` is the code as it is (`stepSeen_current`); any other value is what a
+test made OUTSIDE the writer loop (e.g. by the caller before queueing) can observe when another
+request is applied in between: the test then passes for a mutation that `handleMutation` rejects, and the
+log-then-roll-back path of `stepG false` is reachable again. Kept to state the regression. -/
+def stepSeen (seen : Mem) (s : Store) (n : Nat) (mu : Mutation) : List Pt × (Store × Option Err) :=
+  match check seen mu with
+  | some e => ([⟨{ seg := some s.log }, n + 1, n⟩, ⟨{ seg := some s.log }, n + 1, n + 1⟩], (s, some e))
+  | none => stepG false s n mu
+
+/-! ### Observer for runs with concurrent callers
+
+What the harness can see of such a run: `issue t mu` (caller `t` is about to call the store), `wal mu` (a
+`write(2)` appending the frame of `mu` to the tail segment completed), `ack t r` (the call returned `r`), in
+the order the kernel completed them. The order in which the writer received the requests is not visible
+directly; `CConf` is one explanation of the observations so far by the writer-loop model (`submit`), the
+observer keeps all of them. A request is appended between its `issue` and its `ack`, at the moment of its
+`wal` event, and only if the rejection test passes on the writer's memory at that moment; it is rejected
+without a trace in the log at some moment between `issue` and `ack` at which the test fails. -/
+
+structure CConf where
+  store : Store := {}
+  /-- callers whose outstanding request went through `appendLog` (with the result the writer sent back) -/
+  logged : List (Nat × Option Err) := []
+  /-- callers whose outstanding request the writer can have rejected since it was issued -/
+  rej : List (Nat × Err) := []
+deriving Inhabited
+
+def CConf.same (a b : CConf) : Bool :=
+  a.store.log == b.store.log && a.logged == b.logged && a.rej == b.rej
+
+def dedupConfs (cs : List CConf) : List CConf :=
+  cs.foldl (fun acc c => if acc.any (CConf.same c) then acc else acc ++ [c]) []
+
+/-- note every outstanding, not yet appended request that the writer would reject on its current memory -/
+def CConf.noteRejectable (pend : List Req) (c : CConf) : CConf :=
+  pend.foldl (fun c r =>
+    if c.logged.any (·.1 = r.1) ∨ c.rej.any (·.1 = r.1) then c else
+    match check c.store.mem r.2 with
+    | some e => { c with rej := c.rej ++ [(r.1, e)] }
+    | none => c) c
+
+/-- `pend` already contains the new request -/
+def obsIssue (pend : List Req) (cs : List CConf) : List CConf :=
+  cs.map (CConf.noteRejectable pend)
+
+/-- a frame holding `mu` was appended: some outstanding request with that content passed the test -/
+def obsWal (pend : List Req) (mu : Mutation) (cs : List CConf) : List CConf :=
+  dedupConfs <| cs.flatMap fun c => pend.filterMap fun r =>
+    if r.2 = mu ∧ ¬ c.logged.any (·.1 = r.1) ∧ check c.store.mem r.2 = none then
+      let (s', res) := submit c.store r.2
+      some (CConf.noteRejectable pend { c with store := s', logged := c.logged ++ [(r.1, res)] })
+    else none
+
+/-- the call of `t` returned `res` -/
+def obsAck (t : Nat) (res : Option Err) (cs : List CConf) : List CConf :=
+  dedupConfs <| cs.filterMap fun c =>
+    let fits := match res with
+      | none => c.logged.any (fun x => x.1 = t ∧ x.2 = none)
+      | some e => c.logged.any (fun x => x.1 = t ∧ x.2 = some e) ∨
+          (¬ c.logged.any (·.1 = t) ∧ c.rej.any (fun x => x.1 = t ∧ x.2 = e))
+    if fits then some { c with logged := c.logged.filter (·.1 ≠ t), rej := c.rej.filter (·.1 ≠ t) } else none
+
 /-- `aof.New` on a crash image -/
 def recover (d : Disk) : Except Err Store := reopenLog (walOpen d)
 
@@ -81,5 +167,9 @@ def recovers (pt : Pt) : Bool :=
   match recover pt.disk with
   | .ok _ => true
   | .error _ => false
+
+/-- what `aof.New` yields on the image of a process that stopped now, per explanation -/
+def obsRecover (cs : List CConf) : List (Except Err Store) :=
+  cs.map fun c => recover { seg := some c.store.log }
 
 end Specter.Aof
